@@ -25,6 +25,10 @@ Record version := mkVer { v_all_last : bool; v_fetch_guard : bool; v_sui_empty :
 (* ------------------------------------------------------------------ state *)
 Record tlids := mkTl { tl_tok : N; tl_sorted : list nat; tl_queue : list nat }.   (* TokenLIDs *)
 
+(* where the seal thread of a fraction is parked: not rotated out; rotated out (fm.seal not started);
+   seal.readonly; seal.idle; seal.built; seal.swapped; seal.released; seal.before-replace; finished *)
+Inductive spc := SNone | SRot | SRo | SIdle | SBuilt | SSwapped | SReleased | SRepl | SDone.
+
 Record frac := mkFrac {
   f_act : bool; f_sld : bool; f_ro : bool;      (* proxyFrac: active != nil, sealed != nil, readonly *)
   f_blocks : list (nat * nat);                  (* Active.DocBlocks: which bulk (writer, number) each block holds *)
@@ -35,7 +39,7 @@ Record frac := mkFrac {
   f_wg : nat;                                   (* proxyFrac.indexWg *)
   f_rl : nat;                                   (* read locks held on Active.useMu *)
   f_subs : nat;                                 (* bulks accepted (DocsOnDisk > 0) *)
-  f_seal : nat;                                 (* seal thread: 0 none, 1 rotated out, 30..35 schedule point, 99 finished *)
+  f_seal : spc;                                 (* seal thread of this fraction *)
   f_sdocs : list doc;                           (* content of the sealed fraction built by frac.Seal *)
   f_ssui : bool                                 (* Sealed.suicided *)
 }.
@@ -43,7 +47,7 @@ Record frac := mkFrac {
 Definition max_mid : N := 18446744073709551615%N.
 Definition sys_id : id := (max_mid, max_mid).
 Definition new_frac : frac :=
-  mkFrac true false false [] [] [sys_id] [mkTl 0%N [] []] max_mid 0%N 0 0 0 0 0 [] false.
+  mkFrac true false false [] [] [sys_id] [mkTl 0%N [] []] max_mid 0%N 0 0 0 0 SNone [] false.
 
 Record wst := mkW {
   w_cur : nat;        (* number of the bulk being sent *)
@@ -421,14 +425,14 @@ Definition step_r (c : config) (st : state) (r : nat) : state * obs :=
   end.
 
 (* ------------------------------------------------------------------ maintenance *)
-Definition set_seal (f : frac) (act sld ro : bool) (seal : nat) (sdocs : list doc) : frac :=
+Definition set_seal (f : frac) (act sld ro : bool) (seal : spc) (sdocs : list doc) : frac :=
   mkFrac act sld ro (f_blocks f) (f_pos f) (f_ids f) (f_toks f)
          (f_from f) (f_to f) (f_total f) (f_wg f) (f_rl f) (f_subs f) seal sdocs (f_ssui f).
 
 Definition step_rot (st : state) : state * obs :=
   let g := last_g st in
   if Nat.ltb 0 (f_subs (getf st g))
-  then (mkSt (upd g (fun f => set_seal f (f_act f) (f_sld f) (f_ro f) 1 (f_sdocs f)) (fracs st) ++ [new_frac])
+  then (mkSt (upd g (fun f => set_seal f (f_act f) (f_sld f) (f_ro f) SRot (f_sdocs f)) (fracs st) ++ [new_frac])
              (shift st) (ws st) (rs st), OUnit)
   else (st, ODisabled).
 
@@ -437,34 +441,36 @@ Definition step_m (c : config) (st : state) (g : nat) : state * obs :=
   | None => (st, ODisabled)
   | Some f =>
       match f_seal f with
-      | 1 => if negb (f_act f || f_sld f)
-             then (setf st g (fun f => set_seal f (f_act f) (f_sld f) (f_ro f) 99 (f_sdocs f)), ODone)
-             else (setf st g (fun f => set_seal f (f_act f) (f_sld f) true 30 (f_sdocs f)), OHook 30)
-      | 30 => if Nat.eqb (f_wg f) 0
-              then (setf st g (fun f => set_seal f (f_act f) (f_sld f) (f_ro f) 31 (f_sdocs f)), OHook 31)
+      | SRot => if negb (f_act f || f_sld f)
+             then (setf st g (fun f => set_seal f (f_act f) (f_sld f) (f_ro f) SDone (f_sdocs f)), ODone)
+             else (setf st g (fun f => set_seal f (f_act f) (f_sld f) true SRo (f_sdocs f)), OHook 30)
+      | SRo => if Nat.eqb (f_wg f) 0
+              then (setf st g (fun f => set_seal f (f_act f) (f_sld f) (f_ro f) SIdle (f_sdocs f)), OHook 31)
               else (st, ODisabled)
-      | 31 => (setf st g (fun f => set_seal f (f_act f) (f_sld f) (f_ro f) 32 (build_sealed c f)), OHook 32)
-      | 32 => (setf st g (fun f => set_seal f false true (f_ro f) 33 (f_sdocs f)), OHook 33)
-      | 33 => if Nat.eqb (f_rl f) 0
-              then (setf st g (fun f => set_seal f (f_act f) (f_sld f) (f_ro f) 34 (f_sdocs f)), OHook 34)
+      | SIdle => (setf st g (fun f => set_seal f (f_act f) (f_sld f) (f_ro f) SBuilt (build_sealed c f)), OHook 32)
+      | SBuilt => (setf st g (fun f => set_seal f false true (f_ro f) SSwapped (f_sdocs f)), OHook 33)
+      | SSwapped => if Nat.eqb (f_rl f) 0
+              then (setf st g (fun f => set_seal f (f_act f) (f_sld f) (f_ro f) SReleased (f_sdocs f)), OHook 34)
               else (st, ODisabled)
-      | 34 => (setf st g (fun f => set_seal f (f_act f) (f_sld f) (f_ro f) 35 (f_sdocs f)), OHook 35)
-      | 35 => (setf st g (fun f => set_seal f (f_act f) (f_sld f) (f_ro f) 99 (f_sdocs f)), ODone)
+      | SReleased => (setf st g (fun f => set_seal f (f_act f) (f_sld f) (f_ro f) SRepl (f_sdocs f)), OHook 35)
+      | SRepl => (setf st g (fun f => set_seal f (f_act f) (f_sld f) (f_ro f) SDone (f_sdocs f)), ODone)
       | _ => (st, ODisabled)
       end
   end.
 
+Definition sealing (p : spc) : bool := match p with SRo | SIdle | SBuilt => true | _ => false end.
+Definition replaced (p : spc) : bool := match p with SDone => true | _ => false end.
 Definition sui_enabled (st : state) : bool :=
   let g := shift st in
   let f := getf st g in
   (Nat.leb (g + 2) (length (fracs st)) && Nat.eqb (f_wg f) 0 && Nat.eqb (f_rl f) 0
-   && negb (Nat.eqb (f_seal f) 30 || Nat.eqb (f_seal f) 31 || Nat.eqb (f_seal f) 32))%bool.
+   && negb (sealing (f_seal f)))%bool.
 
 Definition step_sui (st : state) : state * obs :=
   if sui_enabled st then
     let g := shift st in
     (mkSt (upd g (fun f =>
-                    if Nat.eqb (f_seal f) 99
+                    if replaced (f_seal f)
                     then mkFrac (f_act f) (f_sld f) (f_ro f) (f_blocks f) (f_pos f) (f_ids f) (f_toks f) (f_from f) (f_to f)
                                 (f_total f) (f_wg f) (f_rl f) (f_subs f) (f_seal f) (f_sdocs f) true
                     else mkFrac false false (f_ro f) (f_blocks f) (f_pos f) (f_ids f) (f_toks f) (f_from f) (f_to f)
